@@ -11,7 +11,7 @@ def main():
     names = corpus.select("c01", "c11md", quick=(a.tier == "quick"))
     if a.only:
         names = [n for n in names if n in a.only.split(",")]
-    spec = {"tier": a.tier, "itypes": ["cell"], "rel": REL_STRICT, "options": STRICT_OPTS}
+    spec = {"tier": a.tier, "itypes": ["cell"], "rel": REL_STRICT, "options": STRICT_OPTS, "all_ids": True}
     run_cases(chk, "vlib.formcheck", "run_form", names, spec, a.jobs)
     if a.tier == "thorough":
         spec2 = {"tier": a.tier, "itypes": ["cell"], "rel": REL_DEFAULT, "options": {}}
